@@ -64,7 +64,21 @@ def _oracle(args):
     # sequence on one object: rewrite something else first, then this tree
     g = IdGenerator()
     other = xmlsx.from_sx(xmlsx.norm_sx(gen.gen_akn_tree(rng, maxdepth=3)))
-    g.rewrite_all_eids(other, rng.choice(['', 'zz']))
+    # what came before on that object: a whole rewrite; or the public pieces it is made of, called directly (they do not reset); or a
+    # rewrite that failed half way (a comment node makes the walk raise after earlier siblings have been numbered)
+    how = rng.randrange(4)
+    if how == 0:
+        g.rewrite_all_eids(other, rng.choice(['', 'zz']))
+    elif how == 1:
+        g.rewrite_eid(other, rng.choice(['', 'zz']))
+    elif how == 2:
+        g.get_eid(rng.choice(['', prefix]), rng.choice(['section', 'p', 'paragraph']), rng.choice([None, '1', '(a)'])); g.incr(prefix, 'p')
+    else:
+        broken = copy.deepcopy(el)
+        kids = [k for k in broken.iter() if len(k)]
+        if kids: rng.choice(kids).insert(rng.randint(0, 2), etree.Comment('c'))
+        try: g.rewrite_all_eids(broken, prefix)
+        except Exception: pass
     c = copy.deepcopy(el)
     mc = g.rewrite_all_eids(c, prefix)
     if etree.tostring(c) != etree.tostring(a) or dict(mc) != m: return 'result depends on what the same rewriter object rewrote before'
